@@ -16,6 +16,10 @@
      QueryHandler.buildMultiTierReadParquet + MetadataStore.GetTiersForMeasurement -> tvisible:
                               glob the whole hot directory iff some row says hot, the whole cold
                               directory iff some row says cold; no row at all => hot only.
+   The tier_migrations history rows (RecordMigration / CompleteMigration) are NOT part of the
+   state: MigrateFile tolerates a failed history insert, so such a failure must not change any
+   outcome (the correspondence injects it together with every other fault).  A source read that
+   fails after delivering part of the file is a copy failure: nothing is promoted, hot is untouched.
    Association lists (lookup / put / dels / keys) are those of Arc.Compaction.Model. *)
 From Coq Require Import List NArith Bool Arith.
 From Arc Require Import Compaction.Model.
